@@ -9,7 +9,7 @@ EXPLANATION = ("CrossHair (z3) symbolic execution of the TEXT codec kernels on f
                "alphabet up to length 3 (values are realized there because the real classes subclass str).")
 ASSUMPTIONS = [
     "kernels: every Unicode string of length <= 3 (quick) / <= 4 (thorough); longer strings are outside the claim (the codec is a composition of local rewrites of window 2)",
-    "routes through str subclasses and the parser: strings over the 14-character critical alphabet  \\ n N ; , : \" % 2 C CR LF SP a  up to length 3",
+    "routes through str subclasses and the parser: strings over the 16-character critical alphabet  \\ n N ; , : \" % 2 C CR LF SP a  up to length 3",
     "documented normalisations applied by the oracle: literal backslash-N -> LF, CRLF -> LF",
     "CrossHair's models of str.replace / re.sub on symbolic strings are trusted; guarded by concrete re-execution on sampled inputs",
 ]
@@ -17,9 +17,9 @@ CONDITIONS = [
     X("codec", "c07.py", "h_codec", timeout=400, thorough_timeout=6000, what="unescape_char(escape_char(s)) == norm(s)", bound="all Unicode strings, len <= 3 (thorough 4)"),
     X("encoded-form", "c07.py", "h_encoded_form", timeout=300, thorough_timeout=4000, what="no raw LF; every ; and , preceded by an odd run of backslashes", bound="all Unicode strings, len <= 3 (thorough 4)"),
     X("category-codec", "c07.py", "h_category_codec", timeout=400, thorough_timeout=4000, what="list codec with symbolic items (commas, semicolons, backslashes inside items)", bound="1-2 items, all Unicode strings of len <= 2"),
-] + shards("vtext-class", "c07.py", "h_vtext", {"c0": list(range(14))}, timeout=200,
+] + shards("vtext-class", "c07.py", "h_vtext", {"c0": list(range(16))}, timeout=200,
            what="real vText(s).to_ical()/from_ical (bytes and str input)", bound="critical alphabet, len <= 3, first character pinned per shard"
-) + shards("as-property", "c07.py", "h_property", {"c0": list(range(14))}, timeout=300, thorough_timeout=1500,
+) + shards("as-property", "c07.py", "h_property", {"c0": list(range(16))}, timeout=300, thorough_timeout=1500,
            what="Event.add('summary', s) -> to_ical -> from_ical returns norm(s); other property intact; second round byte-stable", bound="critical alphabet, len <= 3"
-) + shards("category-class", "c07.py", "h_category_real", {"c0": list(range(14))}, timeout=300,
+) + shards("category-class", "c07.py", "h_category_real", {"c0": list(range(16))}, timeout=300,
            what="real vCategory([x, y]): to_ical / from_ical / iteration", bound="critical alphabet, |x| <= 2, |y| <= 1")
